@@ -16,6 +16,7 @@ EXPLANATION = (
     "decoder's class for its key and every raw caller value passes a validator whose rows equal the decoder's, so what is stored is accepted again; (SIGNED) the builder's "
     "and the record's signing payloads have the same layout; (REPORTED) the decoded record carries exactly the seq, signature and pairs it read; text and JSON forms invert "
     "each other (rules shared with C12). Not decided: byte equality on concrete inputs and injectivity as such (alloy-rlp canonicality is a library fact)."
+    " Re-uses C02 KEYS (ordering), C09 BUILD/SIZED (whatever is returned fits the decoder's limit) and C10 IDD/UNCOMP/FROM/DIGEST (node id reported = node id of an independent parse)."
 )
 TRUSTED = ["alloy-rlp: encode::<T> after T::decode reproduces the canonical item (class table in rlpclass.py); Header::encode reproduces a canonical header"]
 ASSUMPTIONS = []
@@ -154,3 +155,17 @@ def sliced_by_header(v, hdr):
                 p = ok_payload(strip(e.a[0]))
                 return p is not None and same_value(p, hdr)
     return False
+
+
+_own_run = run
+
+
+def run(ctx, report):
+    _own_run(ctx, report)
+    from common import Only
+    from rules import c02, c09, c10
+    c02.run(ctx, Only(report, {"KEYS": "KEYS"}))
+    # what build() returns must be decodable again (size), and every committed record carries the node id an independent parse computes
+    c09.run(ctx, Only(report, {"BUILD": "SIZE-BUILD", "SIZED": "SIZED"}))
+    c10.run(ctx, Only(report, {"IDD": "IDD", "UNCOMP": "UNCOMP", "FROM": "FROM", "DIGEST": "DIGEST"}))
+
